@@ -280,7 +280,8 @@ func mergeCustomObjectFields(aTypes, bTypes map[string]*ast.Definition, a, b *as
 	isOverlappinggMap := make(map[int]bool)
 	mf := mergeableFields(b)
 	for i, f := range mf {
-		if isIDField(f) {
+		// id is shared by construction only when both sides declare it
+		if isIDField(f) && a.Fields.ForName(f.Name) != nil {
 			continue
 		}
 
